@@ -1,0 +1,48 @@
+//go:build verif
+
+// API placeholders of package geojson: trusted contracts for the collection and Circle methods that the leaf kinds call;
+// a proved contract of the same key in another *_verif.go file REPLACES the placeholder (loader rule for *_api_* files).
+
+package geojson
+
+//@ func Circle.Contains
+//@   props C09 C13
+//@   trusted placeholder until the Circle contracts prove this method
+//@   requires ObjInv(g) && ObjInv(obj)
+//@   ensures result == oContains(g, obj)
+//@ func Circle.Intersects
+//@   props C09 C13
+//@   trusted placeholder until the Circle contracts prove this method
+//@   requires ObjInv(g) && ObjInv(obj)
+//@   ensures result == oIntersects(g, obj)
+//@ func Circle.Within
+//@   props C09 C13
+//@   trusted placeholder until the Circle contracts prove this method
+//@   requires ObjInv(g) && ObjInv(obj)
+//@   ensures result == oContains(obj, g)
+//@ func Circle.Spatial
+//@   props C09 C13
+//@   trusted placeholder until the Circle contracts prove this method
+//@   requires ObjInv(g)
+//@   ensures result == oSpatial(g) && SpInv(result)
+
+//@ func collection.Contains
+//@   props C09 C10
+//@   trusted placeholder until the collection contracts prove this method
+//@   requires g != nil && ObjInv(obj)
+//@   ensures result == collContainsS(g, obj)
+//@ func collection.Intersects
+//@   props C09 C10
+//@   trusted placeholder until the collection contracts prove this method
+//@   requires g != nil && ObjInv(obj)
+//@   ensures result == collIntersectsS(g, obj)
+//@ func collection.Within
+//@   props C09 C10
+//@   trusted placeholder until the collection contracts prove this method
+//@   requires g != nil && ObjInv(obj)
+//@   ensures result == oContains(obj, g)
+//@ func collection.Spatial
+//@   props C09 C10
+//@   trusted placeholder until the collection contracts prove this method
+//@   requires g != nil
+//@   ensures result == g && SpInv(result)
